@@ -373,10 +373,10 @@ func (ex *Explorer) runPath(h *HarnessSpec, solver *Solver, prefix []decision, w
 			case targetPanic:
 				ctx.endReason = "panic"
 				msg := targetPanicString(i, p.v)
-				ctx.violated("panic", "uncaught panic", msg, tTrue)
+				ctx.violated("panic", "uncaught panic", msg+" | at "+ctx.panicStack, tTrue)
 			case targetRuntimeError:
 				ctx.endReason = "panic"
-				ctx.violated("panic", "uncaught panic", p.Error(), tTrue)
+				ctx.violated("panic", "uncaught panic", p.Error()+" | at "+ctx.panicStack, tTrue)
 			default:
 				if re, ok := p.(runtime.Error); ok && (strings.Contains(re.Error(), "nil pointer dereference")) {
 					// a nil *value dereferenced by the executor on behalf of the target
@@ -478,5 +478,9 @@ var DefaultInitPackages = []string{
 	"github.com/rigochain/rigo-go/genesis",
 	"github.com/rigochain/rigo-go/libs",
 	"github.com/rigochain/rigo-go/zzverif",
+	"github.com/rigochain/rigo-go/node",
+	"github.com/rigochain/rigo-go/cmd/config",
+	"github.com/rigochain/rigo-go/cmd/version",
+	"github.com/rigochain/rigo-go/ctrlers/vm/evm",
 	"time",
 }
